@@ -190,7 +190,12 @@ impl<R: std::io::BufRead> Read for ReaderRead<R> {
 				while n < buf.len() {
 					let mut byte = [0u8; 1];
 					if std::io::Read::read(self, &mut byte).map_err(DeError::io)? == 0 {
-						break;
+						// Premature end of input is an IO error (this is what makes the
+						// object container file reader treat it as unrecoverable)
+						return Err(DeError::io(std::io::Error::new(
+							std::io::ErrorKind::UnexpectedEof,
+							"Reached EOF while reading varint",
+						)));
 					}
 					buf[n] = byte[0];
 					n += 1;
@@ -201,8 +206,8 @@ impl<R: std::io::BufRead> Read for ReaderRead<R> {
 				match I::decode_var(&buf[..n]) {
 					Some((val, _)) => Ok(val),
 					None => Err(DeError::new(
-						"Could not decode varint: reached EOF before its end, \
-							or it does not fit the expected integer type",
+						"Could not decode varint: it is too long \
+							or does not fit the expected integer type",
 					)),
 				}
 			}
